@@ -2897,7 +2897,6 @@ fn grouped_all_with<T: Clone + Into<Obj>>(
 
 fn windowed<T: Clone>(mut it: impl Iterator<Item = NRes<T>>, n: usize) -> NRes<Vec<Vec<T>>> {
     let mut window = VecDeque::new();
-    window.reserve_exact(n);
     for _ in 0..n {
         match it.next() {
             Some(obj) => window.push_back(obj?),
